@@ -35,7 +35,7 @@ import (
 type CoAct struct {
 	Kind string // arrive | answer | resume | adv | settle
 	I    int    // client index / fetch ordinal
-	Arg  string // arrive: fast|slow ; answer: new|304|500|fail|cut
+	Arg  string // arrive: fast|slow ; answer: new|304|500|fail|cut|slow (head and half of the body, the rest at "finish")|finish
 	Dt   int64
 }
 
@@ -71,6 +71,36 @@ type fetch struct {
 	started  time.Time
 	answered int32 // the schedule has let it answer
 	finished int32 // its response was read to the end (or failed)
+	paused   int32 // its body stands still in the middle until the schedule says "finish"
+	finish   chan struct{}
+	finOnce  sync.Once
+}
+
+// pausedReader hands out the first half of a body, then waits for the gate, then the rest
+type pausedReader struct {
+	data   []byte
+	pos    int
+	gate   chan struct{}
+	paused *int32
+}
+
+func (p *pausedReader) Read(b []byte) (int, error) {
+	half := len(p.data) / 2
+	if p.pos == half {
+		atomic.StoreInt32(p.paused, 1)
+		<-p.gate
+		atomic.StoreInt32(p.paused, 0)
+	}
+	if p.pos >= len(p.data) {
+		return 0, io.EOF
+	}
+	end := len(p.data)
+	if p.pos < half {
+		end = half
+	}
+	n := copy(b, p.data[p.pos:end])
+	p.pos += n
+	return n, nil
 }
 
 type gatedOrigin struct {
@@ -123,7 +153,7 @@ func (f *failAfter) Read(p []byte) (int, error) {
 
 func (g *gatedOrigin) Do(req *http.Request) (*http.Response, error) {
 	g.mu.Lock()
-	f := &fetch{ord: len(g.fetches), cond: req.Header.Get("If-None-Match") != "" || req.Header.Get("If-Modified-Since") != "", answer: make(chan string, 1), started: time.Now()}
+	f := &fetch{ord: len(g.fetches), cond: req.Header.Get("If-None-Match") != "" || req.Header.Get("If-Modified-Since") != "", answer: make(chan string, 1), started: time.Now(), finish: make(chan struct{})}
 	g.fetches = append(g.fetches, f)
 	g.inflight++
 	if g.inflight > g.maxIn {
@@ -175,6 +205,9 @@ func (g *gatedOrigin) Do(req *http.Request) (*http.Response, error) {
 	}
 	if how == "cut" {
 		return mk(200, h, &failAfter{data: []byte(b[:len(b)/2])}, declared), nil
+	}
+	if how == "slow" {
+		return mk(200, h, &pausedReader{data: []byte(b), gate: f.finish, paused: &f.paused}, declared), nil
 	}
 	return mk(200, h, strings.NewReader(b), declared), nil
 }
@@ -300,7 +333,7 @@ func (c coordCase) Run() (sx.V, error) {
 			open := false
 			g.mu.Lock()
 			for _, f := range g.fetches {
-				if atomic.LoadInt32(&f.answered) == 1 && atomic.LoadInt32(&f.finished) == 0 {
+				if atomic.LoadInt32(&f.answered) == 1 && atomic.LoadInt32(&f.finished) == 0 && atomic.LoadInt32(&f.paused) == 0 {
 					open = true
 				}
 			}
@@ -375,7 +408,17 @@ func (c coordCase) Run() (sx.V, error) {
 				f = g.fetches[a.I]
 			}
 			g.mu.Unlock()
-			if f != nil {
+			if f != nil && a.Arg == "finish" {
+				f.finOnce.Do(func() { close(f.finish) })
+				// "finish" for a fetch that was not standing half way: it is answered now, as a new version
+				if atomic.LoadInt32(&f.answered) == 0 {
+					select {
+					case f.answer <- "new":
+						atomic.StoreInt32(&f.answered, 1)
+					default:
+					}
+				}
+			} else if f != nil {
 				select {
 				case f.answer <- a.Arg:
 					atomic.StoreInt32(&f.answered, 1)
@@ -408,6 +451,8 @@ func (c coordCase) Run() (sx.V, error) {
 	// let everything finish, then one more plain request: the key must be neither wedged nor poisoned
 	g.mu.Lock()
 	for _, f := range g.fetches {
+		f := f
+		f.finOnce.Do(func() { close(f.finish) })
 		select {
 		case f.answer <- "new":
 		default:
@@ -487,6 +532,12 @@ func coordPinned() []coordCase {
 	return []coordCase{
 		// three requests share one fill
 		{MaxAge: 60, Acts: []CoAct{act("arrive", 0, "fast"), act("arrive", 1, "fast"), act("arrive", 2, "fast"), act("answer", 0, "new")}},
+		// requests that arrive while the first one's body is half way in (cache file created, not yet published)
+		{MaxAge: 60, Acts: []CoAct{act("arrive", 0, "fast"), act("answer", 0, "slow"), act("arrive", 1, "fast"), act("arrive", 2, "fast"), act("answer", 0, "finish")}},
+		{MaxAge: 60, NoCL: true, Acts: []CoAct{act("arrive", 0, "fast"), act("answer", 0, "slow"), act("arrive", 1, "fast"), act("answer", 0, "finish")}},
+		// the same in a revalidation
+		{MaxAge: 60, Acts: []CoAct{act("arrive", 0, "fast"), act("answer", 0, "new"), {Kind: "adv", Dt: 100}, act("arrive", 1, "fast"), act("answer", 1, "slow"),
+			act("arrive", 2, "fast"), act("answer", 1, "finish")}},
 		// a slow first client keeps its handler alive past the end of the fill; the entry expires; a
 		// second request revalidates; the first finishes; a third arrives (finding F18)
 		{MaxAge: 60, Big: true, Acts: []CoAct{act("arrive", 0, "slow"), act("answer", 0, "new"), {Kind: "adv", Dt: 100}, act("arrive", 1, "fast"),
@@ -559,7 +610,17 @@ func genCoord(tier string, rng *Rng) []Case {
 			case 4, 5, 6:
 				// answer the oldest unanswered fetch (it exists if something arrived: the generator may be wrong
 				// about that; an answer to a fetch that does not exist is ignored by harness and model alike)
-				c.Acts = append(c.Acts, act("answer", fetchesAnswered, answers[rng.Intn(len(answers))]))
+				if rng.Chance(25, 100) && !c.Big {
+					// the answer comes in two halves; something else may happen in between
+					c.Acts = append(c.Acts, act("answer", fetchesAnswered, "slow"))
+					if arrived < 5 && rng.Chance(70, 100) {
+						c.Acts = append(c.Acts, act("arrive", arrived, "fast"))
+						arrived++
+					}
+					c.Acts = append(c.Acts, act("answer", fetchesAnswered, "finish"))
+				} else {
+					c.Acts = append(c.Acts, act("answer", fetchesAnswered, answers[rng.Intn(len(answers))]))
+				}
 				fetchesAnswered++
 			case 7:
 				c.Acts = append(c.Acts, CoAct{Kind: "adv", Dt: int64(rng.Pick2([]int{10, 59, 60, 100}))})
